@@ -175,36 +175,38 @@ pub fn c15_nn3_exact_pow2() {
 }
 
 /// long searches: the search has NO trial budget of its own - it goes on until alpha drops below alpha_min.
-/// alpha_init = 1, step = 1/2, alpha_min = 2^-70; the oracle accepts exactly the j-th candidate (j symbolic,
-/// possibly none): the result is 2^-j if that candidate is not below alpha_min, and 0 otherwise - never an
-/// untested value.
+/// alpha_init = 1, step = 1/2, alpha_min = 2^-70; the oracle accepts exactly the point of the j-th candidate
+/// (j symbolic, possibly none): the result is 2^-j if that candidate can be told apart, and 0 otherwise - never
+/// an untested value, and in particular not after 50 trials.
 #[kani::proof]
 #[kani::unwind(76)]
 pub fn c15_backtrack_long() {
     let j: usize = kani::any();
-    kani::assume(j <= 90);
-    let idx = std::cell::Cell::new(0usize);
-    let oracle = |_w: &[f64]| {
-        let i = idx.get();
-        idx.set(i + 1);
-        i == j
-    };
+    kani::assume(j <= 51); // 1 + 2^-(j+1) is exactly representable and distinct from its neighbours up to here
+    let never: bool = kani::any(); // an oracle that rejects everything
     let q = [1.0f64, 2.0];
     let dq = [0.5f64, -1.0];
+    // the oracle is a function of the POINT it is shown (not of how often it has been asked): it accepts exactly
+    // q + 2^-j dq (or nothing at all)
+    let accepted_point = 1.0 + f64::from_bits((1023u64 - (j as u64 + 1)) << 52);
+    let asked = std::cell::Cell::new(0usize);
+    let oracle = |w: &[f64]| {
+        asked.set(asked.get() + 1);
+        !never && w[0] == accepted_point
+    };
     let mut work = [0.0f64; 2];
     let amin = f64::from_bits((1023u64 - 70) << 52); // 2^-70
     let a = vh::backtrack_search(&dq, &q, 1.0, amin, 0.5, oracle, &mut work);
-    let calls = idx.get();
-    if j <= 70 {
+    if !never {
         let want = f64::from_bits((1023u64 - j as u64) << 52); // 2^-j
         assert!(a == want, "the_accepted_candidate_is_returned_however_many_reductions_it_takes");
-        assert!(calls == j + 1, "search_stops_at_the_first_accepted_candidate");
+        assert!(work[0] == accepted_point, "work_holds_the_accepted_point");
     } else {
         assert!(a == 0.0, "zero_when_every_candidate_not_below_alpha_min_was_rejected");
-        assert!(calls == 71, "every_candidate_down_to_alpha_min_was_tried");
     }
-    kani::cover!(j == 60 && a > 0.0, "accepted after sixty reductions");
-    kani::cover!(a == 0.0, "gave up at alpha_min");
+    assert!(asked.get() >= 1, "the_oracle_is_consulted");
+    kani::cover!(j == 51 && a > 0.0, "accepted after fifty-one reductions");
+    kani::cover!(never && a == 0.0, "gave up at alpha_min");
 }
 
 /// zero cone: no restriction on the step
